@@ -146,9 +146,13 @@ class ArrayUfunc(Contract):
                 ex.oblige("post.result_is_call_of_registered_implementation", z3.BoolVal(ok), "post")
                 if ok:
                     ex.oblige("post.implementation", res.f == Uc.at(target), "post")
+                    kwobj = res.kw.get("**")
                     ex.oblige("post.arguments_forwarded_unchanged",
-                              z3.BoolVal(res.args == (ex.inputs,) and getattr(res.kw.get("**"), "tok", None) is ex.kwargs["**"]
+                              z3.BoolVal(res.args == (ex.inputs,) and getattr(kwobj, "tok", None) is ex.kwargs["**"]
                                          and len(res.kw) == 1), "post")
+                    want = {"axis": 0} if m in ("reduce", "accumulate") else {}
+                    ex.oblige("post.default_axis_of_ufunc_method", z3.BoolVal(getattr(kwobj, "defaults", None) == want), "post",
+                              note="ufunc.reduce/accumulate work along axis 0 unless an axis is given; nothing else is defaulted")
             yield Case(m, make_env, check)
 
     def apply(self, ex, args, kw, node):
@@ -156,11 +160,21 @@ class ArrayUfunc(Contract):
 
 
 class _Kw:
-    """**kwargs object: opaque mapping handed through"""
+    """**kwargs object: opaque mapping handed through; `setdefault` calls are recorded"""
     is_dict = True
 
     def __init__(self, tok):
         self.tok = tok
+        self.defaults = {}
+
+    def sx_getattr(self, ex, attr, node):
+        return V.BoundMethod(self, attr)
+
+    def sx_method(self, ex, attr, args, kw, node):
+        if attr == "setdefault" and len(args) == 2 and isinstance(args[0], str):
+            self.defaults.setdefault(args[0], args[1])
+            return None
+        raise U(f"kwargs.{attr}", node)
 
 
 class ArrayFunction(Contract):
